@@ -43,3 +43,33 @@ def eff_site_density(reaction, operation):
     if operation == 'min':
         return min(dens)
     return max(dens)
+
+
+def state_energies(reactions, units, T):
+    """Gibbs energies of the states visited by a reaction sequence, in order
+    (reactants, transition state if any, products of every step)"""
+    out = []
+    for r in reactions.reactions:
+        for state in ('reactants', 'transition_state', 'products'):
+            if getattr(r, state) is None:
+                continue
+            out.append(r.get_G_state(state=state, units=units, T=T))
+    return out
+
+
+def energy_span(G):
+    """highest minus lowest state energy, plus the overall reaction energy
+    when the highest state comes before the lowest"""
+    n = len(G)
+    hi = G[0]
+    lo = G[0]
+    for g in G:
+        hi = g if g > hi else hi
+        lo = g if g < lo else lo
+    # first index attaining the maximum / minimum
+    i_hi = 0
+    i_lo = 0
+    for k in range(n - 1, -1, -1):
+        i_hi = k if G[k] == hi else i_hi
+        i_lo = k if G[k] == lo else i_lo
+    return (hi - lo) + ((G[n - 1] - G[0]) if i_hi < i_lo else 0)
